@@ -830,6 +830,24 @@ pub fn gen_c03(rng: &mut Rng, thorough: bool) -> Vec<Tagged> {
             out.push((format!("{}-large-step-numbers", opt.kind()), Case::OptHistory { opt, vals: vec![vec![vec![w]]], steps }));
         }
     }
+    // matrices and kernels beyond 2^15 elements (a dense layer of 784 -> 128, say) with SMALL gradients (1e-3 ..
+    // 1e-6: of the order of epsilon's square root, where sqrt(v) + eps and sqrt(v + eps) part ways), every
+    // optimizer kind, three steps; long and tall matrices
+    for kind in 0..5 {
+        for (si, shape) in [Shape::Double(182, 181), Shape::Double(1, 33000), Shape::Double(33000, 1), Shape::Triple(8, 65, 64)].iter().enumerate() {
+            if !(thorough || si == 0 || (si + kind) % 4 == 0) {
+                continue;
+            }
+            let opt = rand_opt(rng, kind);
+            let n = shape_numel(shape);
+            let w = tensor_of_shape(shape, &(0..n).map(|i| ((i * 31) % 997) as f32 * 0.002 - 1.0).collect::<Vec<_>>());
+            let steps: Vec<(usize, usize, bool, i32, Tensor)> = [1, 2, 3].iter().map(|s| {
+                let scale = [1e-4f32, 1e-3, 1e-6][(*s as usize + si) % 3];
+                (0usize, 0usize, false, *s, tensor_of_shape(shape, &(0..n).map(|i| (((i * 17 + *s as usize * 5) % 211) as f32 - 105.0) * scale * 0.01).collect::<Vec<_>>()))
+            }).collect();
+            out.push((format!("{}-beyond-2^15-small-gradients-{}", opt.kind(), si), Case::OptHistory { opt, vals: vec![vec![vec![w]]], steps }));
+        }
+    }
     // the same optimizer value attached (validated) again between phases of steps, with the same layout: the
     // running statistics are zero-initialised at every attachment (the second phase restarts at step 1, or at a
     // later step number), the parameters carry on; every optimizer kind, every rank
